@@ -320,12 +320,13 @@ pub(crate) fn add_str_format_replace<W, R, T>(
             let replacement_func = to_primitive!(a1, Function);
 
             let mut ret = FencedString::default();
+            // the regex reports byte offsets: slice the text itself, not the code-point view
+            let text = pat.as_str();
             let mut prev_end = 0;
-            for m in RE.find_iter(pat.as_str()) {
-                let end = m.start();
-                ret.push(&pat.substring(prev_end, Some(end)));
+            for m in RE.find_iter(text) {
+                ret.push(&FencedString::from_str(&text[prev_end..m.start()]));
                 let substr = ManagedXValue::new(
-                    XValue::String(Box::new(pat.substring(m.start() + 1, Some(m.end())))),
+                    XValue::String(Box::new(FencedString::from_str(&text[m.start() + 1..m.end()]))),
                     rt.clone(),
                 )?;
                 let replacement = xraise!(ns
@@ -333,9 +334,9 @@ pub(crate) fn add_str_format_replace<W, R, T>(
                     .unwrap_value());
                 let repl_str = to_primitive!(replacement, String);
                 ret.push(repl_str.as_ref());
-                prev_end = end + 2;
+                prev_end = m.end();
             }
-            ret.push(&pat.substring(prev_end, None));
+            ret.push(&FencedString::from_str(&text[prev_end..]));
             Ok(ManagedXValue::new(XValue::String(Box::new(ret)), rt)?.into())
         }),
     )
